@@ -54,6 +54,10 @@ class CsrDriver:
     def next(self):
         return next(self.gen)
 
+    def restart(self):
+        """Abandon whatever transaction is in progress (used around a warm reset)."""
+        self.gen = self._stream()
+
 
 def assemble(chunks, dw, width):
     """Value written by a completed transaction from MuxModel's {chunk: value} payload."""
